@@ -220,7 +220,7 @@ def sprinkle_misc(rng, ops, aid, prob=0.06):
     return ops[:i + 1] + [{"a": aid, "op": rng.choice(["saveload", "addl"])}] + ops[i + 1:]
 
 
-def sprinkle_clone(rng, ops, aid, prob=0.05):
+def sprinkle_clone(rng, ops, aid, prob=0.05, spec=None):
     """Checkpoint / rollback: at some moment the caller continues with a deep copy of the solver."""
     if rng.random() >= prob:
         return ops
@@ -228,7 +228,11 @@ def sprinkle_clone(rng, ops, aid, prob=0.05):
     if not idx:
         return ops
     i = rng.choice(idx)
-    return ops[:i + 1] + [{"a": aid, "op": "clone"}] + ops[i + 1:]
+    op = {"a": aid, "op": "clone"}
+    if spec is not None and not spec.get("listeners") and rng.random() < 0.5:
+        # a fork: the caller goes on with the copy AND keeps stepping the original (which must not reach the copy)
+        op["keep"] = rng.randint(1, 6)
+    return ops[:i + 1] + [op] + ops[i + 1:]
 
 
 def gen_clock(rng):
